@@ -71,7 +71,15 @@ RULE = (
     'freshly constructed from copies; results obtained earlier keep their bits; writing into results changes neither '
     'chopper nor arguments nor a repetition.  Numbers of slits / angles equal to the number of rotations used inside, '
     'one below, one above, and 2 / 3; slit dimension names that are not in NFC / NFKC form (results along the very '
-    'same name); the first call in a fresh interpreter that imported only the module of the entry point (same bits)'
+    'same name); the first call in a fresh interpreter that imported only the module of the entry point (same bits).  '
+    'FREQUENCIES INSIDE THE ACCEPTANCE BAND (deterministic grid: ratios 1..8 and 1/2, 1/3, 1/4 x both senses x below / '
+    'above x offsets 1e-12 .. 1e-8 relative and 3e-9 .. 1e-8 absolute on the ratio resp. its reciprocal): whether they '
+    'are accepted is not decided between 1e-10 and 1e-7, but what an accepted one reports is judged on the disk turning '
+    'at that very frequency, and every slit must appear exactly once per rotation of the documented span (the rotation '
+    'finishing when the pulse begins + the rotations of one pulse period: nearest integer ratio, at least one).  EVERY '
+    'LAYOUT DiskChopper accepts for the slit fields (0-d scalars, length 1, length n) x construction route (constructor, '
+    'replace, from_nexus, subclass) x both senses x ratio below / equal / above 1, through every entry point incl. '
+    'from_disk_chopper with 1..4 pulses'
 )
 ASSUMPTIONS = [
     'numpy long double (x87 80 bit) evaluates the disk angle alpha(dt) = beam_position + phase - '
@@ -129,7 +137,7 @@ F_UNIT_HZ = {'Hz': 1.0, 'kHz': 1000.0, '1/min': 1 / 60}
 OPENING_CHECKS = ('open_not_before_close', 'closed_inside_interval', 'open_outside_interval',
                   'duration', 'slit_multiplicity', 'duplicate_opening', 'missing_opening',
                   'non_finite', 'shape', 'span_shorter_than_requested', 'overlapping_openings',
-                  'longer_than_rotation')
+                  'longer_than_rotation', 'rotation_count')
 
 NEXUS_TYPE_SINGLE = 'Chopper type single'   # NXdisk_chopper.type of a single disk (NeXus base class)
 LARGE_ANGLES = 2 ** 20
@@ -221,6 +229,27 @@ def _has_variances(*operands):
     return False
 
 
+def slit_layout(ch):
+    """How the slit fields of the observed chopper are laid out (every layout DiskChopper accepts)."""
+    try:
+        b = ch.slit_begin
+        return '0-d' if b.ndim == 0 else ('length-1' if b.shape[-1] == 1 else 'length-n')
+    except Exception:  # noqa: BLE001
+        return 'other'
+
+
+def band_class(ri):
+    """Where an accepted frequency lies inside the tolerance band: multiple / divisor, below / above the
+    integer, and the distance of the ratio (of its reciprocal for a divisor) from that integer."""
+    r = LD(ri['ratio'])
+    x = r if ri['kind'] == 'multiple' else 1 / r
+    d = float(x - ri['n'])
+    a = abs(d)
+    dec = ('< 1e-10' if a < 1e-10 else '1e-10 .. 1e-9' if a < 1e-9 else '1e-9 .. 5e-9' if a < 5e-9 else
+           '5e-9 .. 1e-8' if a < 1e-8 else '>= 1e-8')
+    return f'{ri["kind"]}, ' + ('below' if d < 0 else 'above') + f' the integer by {dec}'
+
+
 def disk_of(ch):
     """Rotating disk from the fields of the observed DiskChopper (inputs only)."""
     f_hz = _scalar(ch.frequency)
@@ -244,7 +273,7 @@ def within_one_turn(disk):
     return bool(np.max(disk.begin) - np.min(disk.begin) < TWO_PI)
 
 
-def check_openings(disk, to, tc, tol_t, min_span=None, geometry_valid=True):
+def check_openings(disk, to, tc, tol_t, min_span=None, geometry_valid=True, per_slit=None):
     """Put reported intervals on the disk.  Returns (problems: dict check -> info, stats).
 
     The first checks hold for the openings of *any* uniformly rotating disk and need no valid
@@ -355,6 +384,14 @@ def check_openings(disk, to, tc, tol_t, min_span=None, geometry_valid=True):
     if counts.size and (np.any(counts != counts[0]) or np.any(k_mid < 0)):
         prob['slit_multiplicity'] = {'per_slit': counts.tolist(),
                                      'closed_at_midpoint': int(np.count_nonzero(k_mid < 0))}
+    # the documented span of time_offset_open / time_offset_close: the rotation that is finishing when
+    # the pulse begins plus the whole rotations of one pulse period ("rotations -1 .. n-1") -- every
+    # slit once per rotation of that span, no rotation more, none less
+    if per_slit is not None and counts.size and 'slit_multiplicity' not in prob:
+        stats['rotations_judged'] = True
+        if int(counts[0]) != int(per_slit):
+            prob['rotation_count'] = {'per_slit': counts.tolist(), 'expected_per_slit': int(per_slit),
+                                      'reported': int(n)}
     # no opening reported twice: the same slit can only reappear one rotation later
     dup = 0
     distinct_valid = 0
@@ -724,9 +761,13 @@ class Monitors:
         ctx = self.ctx
         try:
             ri = self.ratio_info(ch, fp)
-            if ri['rel'] > ACCEPT_REL:
-                ctx.count('pair_not_judged:ratio not clearly in phase')
+            if ri['rel'] > REJECT_REL or not (0.2 <= ri['ratio'] <= 10):
+                ctx.count('pair_not_judged:ratio not in phase')
                 return None
+            # Whether a ratio between 1e-10 and 1e-7 (relative) from n or 1/n is accepted is not decided
+            # by the property; but WHEN such a frequency is accepted, what is reported are the openings
+            # of the disk turning at that very frequency, for the rotations of the documented span
+            in_band = ri['rel'] > ACCEPT_REL
             to, tc = si.si(slot['open']), si.si(slot['close'])
             key = (id(ch), slot['fp'], _bits(slot['open']), _bits(slot['close']))
             if key in self.cache:
@@ -740,8 +781,12 @@ class Monitors:
             valid = geo['verdict'] == 'valid'
             rot = int(np.ceil(max(ri['ratio'], 1.0))) + 1
             tol_t = K_TOL * EPS * angle_magnitude(self.view(ch), disk, rot) / abs(disk.omega)
-            prob, stats = check_openings(disk, to, tc, tol_t, min_span=1 / ri['fp_hz'],
-                                         geometry_valid=valid)
+            # rotations of the documented span: the one finishing when the pulse begins + those of one
+            # pulse period (the nearest integer to the ratio -- unambiguous within 1e-7 -- at least one)
+            per_slit = max(int(ri['n']) if ri['kind'] == 'multiple' else 1, 1) + 1
+            prob, stats = check_openings(disk, to, tc, tol_t,
+                                         min_span=(1 - 4 * LD(ri['rel'])) / ri['fp_hz'],
+                                         geometry_valid=valid, per_slit=per_slit)
         except Exception:  # noqa: BLE001
             ctx.oracle_error('C10 direct pair')
             return None
@@ -751,6 +796,13 @@ class Monitors:
         if valid:
             ctx.event('pair.direct')
             ctx.event('intervals.direct', int(to.size))
+            ctx.event(f'pair.direct.slits {slit_layout(self.view(ch))}')
+            if stats.get('rotations_judged'):
+                ctx.event('pair.direct.rotation_count')
+            if in_band:
+                ctx.event('pair.direct.in_tolerance_band')
+            if ri['rel'] > 0 and self.case.get('class') == 'band':
+                ctx.hit('tolerance band, accepted and judged: ' + band_class(ri))
         else:
             ctx.event('pair.direct.forbidden_slit_set')
         return ok
@@ -777,8 +829,8 @@ class Monitors:
             checks = sorted(prob)
             case = dict(self.case, origin=origin, npulses=npulses, ratio=ri['ratio'], checks=prob,
                         chopper=_describe(self.view(ch)), pulse_frequency_hz=float(ri['fp_hz']),
-                        time_open_s=[float(x) for x in to[:64]],
-                        time_close_s=[float(x) for x in tc[:64]])
+                        time_open_s=[float(x) for x in np.atleast_1d(to).ravel()[:64]],
+                        time_close_s=[float(x) for x in np.atleast_1d(tc).ravel()[:64]])
             ctx.violation(f'{origin}.misplaced_openings',
                           f'{origin} (ratio {ri["ratio"]:.6g}, npulses {npulses}): {checks}; first: '
                           f'{prob[checks[0]]}'[:400], case, checks=checks, **keys)
@@ -786,8 +838,8 @@ class Monitors:
         for check, info in prob.items():
             case = dict(self.case, origin=origin, npulses=npulses, ratio=ri['ratio'], check=check,
                         info=info, chopper=_describe(self.view(ch)), pulse_frequency_hz=float(ri['fp_hz']),
-                        time_open_s=[float(x) for x in to[:64]],
-                        time_close_s=[float(x) for x in tc[:64]])
+                        time_open_s=[float(x) for x in np.atleast_1d(to).ravel()[:64]],
+                        time_close_s=[float(x) for x in np.atleast_1d(tc).ravel()[:64]])
             ctx.violation(f'{origin}.{check}',
                           f'{origin} (ratio {ri["ratio"]:.6g}, npulses {npulses}): {check} {info}'[:400],
                           case, check=check, **keys)
@@ -806,7 +858,15 @@ class Monitors:
                               f'{ev.exc}'[:300], dict(self.case), exc=type(ev.exc).__name__)
             return
         if ok is not True and ev.depth == 0:
-            return
+            # accepted inside the tolerance band (acceptance itself undecided): the durations are judged
+            try:
+                ri0 = self.ratio_info(ch, fp)
+                if not (ok is None and ri0['rel'] <= REJECT_REL and 0.2 <= ri0['ratio'] <= 10):
+                    return
+            except Exception:  # noqa: BLE001
+                ctx.oracle_error('C10 open_duration')
+                return
+            ctx.event('open_duration.in_tolerance_band')
         try:
             slot = self.pairs.get(id(ch), {})
             if 'open' not in slot or 'close' not in slot:
@@ -845,6 +905,8 @@ class Monitors:
             ctx.oracle_error('C10 open_duration')
             return
         ctx.event('open_duration' if geo['verdict'] == 'valid' else 'open_duration.forbidden_slit_set')
+        if geo['verdict'] == 'valid':
+            ctx.event(f'open_duration.slits {slit_layout(self.view(ch))}')
         if np.any(not_pos):
             i = int(np.argmin(dur))
             ctx.violation('open_duration.not_positive',
@@ -937,6 +999,7 @@ class Monitors:
         if valid:
             ctx.event(f'cascade.npulses={npulses}')
             ctx.event('intervals.cascade', int(to.size))
+            ctx.event(f'cascade.slits {slit_layout(self.view(ch))}')
         else:
             ctx.event('cascade.forbidden_slit_set')
         self._report(origin, prob, stats, ch, ri, to, tc, npulses,
@@ -1458,7 +1521,7 @@ def build(case, DiskChopper):
     import dataclasses
     import types
 
-    scalar = case['via'] == 'ctor_scalar'
+    scalar = case['via'] == 'ctor_scalar' or case.get('layout') == '0-d'
     dim, dtype = case.get('dim', 'slit'), case.get('dtype', 'float64')
     var = case.get('variances')
     ev = {}
@@ -1658,6 +1721,18 @@ def requirements(tier):
         'result.dim_name_compared': len(NON_NFC_DIMS) * reps, 'fresh.first_call_compared': len(FRESH_ENTRIES),
     })
     ev.update({f'freq.must_reject.structured.{e}': n_pq for e in STRUCT_ENTRIES})
+    # round 8: frequencies inside the acceptance band (rotations of the documented span counted), slit layouts
+    forced += [f'tolerance band: ratio {label}' for label, _, _ in BAND_RATIOS]
+    forced += [f'tolerance band: {s} by {how} {x:g}' for s in ('below', 'above') for how, x in BAND_OFFSETS]
+    forced += ['tolerance band: clockwise', 'tolerance band: anticlockwise']
+    forced += [f'tolerance band, accepted and judged: {c}' for c in BAND_JUDGED]
+    forced += [f'slit fields {lay}' for lay in SLIT_LAYOUTS]
+    forced += [f'slit fields {lay} via {via}' for lay in SLIT_LAYOUTS for via in LAYOUT_VIAS]
+    ev.update({'pair.direct.rotation_count': 100 * (20 if big else 1),
+               'pair.direct.in_tolerance_band': 150 * reps, 'open_duration.in_tolerance_band': 150 * reps})
+    for lay in SLIT_LAYOUTS:
+        ev.update({f'pair.direct.slits {lay}': 12 * reps, f'open_duration.slits {lay}': 12 * reps,
+                   f'cascade.slits {lay}': 30 * reps})
     return {
         'events': ev,
         'forced': forced,
@@ -1665,7 +1740,9 @@ def requirements(tier):
                      'named_dimension_choppers': len(dim_grid()) * reps,
                      'call_sequences': len(seq_grid()) * reps,
                      'structured_slit_sets': len(sg) * reps, 'structured_out_of_phase_calls': 4 * n_pq,
-                     'inplace_sequences': len(INPLACE_MODS) * reps, 'size_cases': len(size_grid()) * reps},
+                     'inplace_sequences': len(INPLACE_MODS) * reps, 'size_cases': len(size_grid()) * reps,
+                     'tolerance_band_choppers': len(band_grid()) * reps,
+                     'slit_layout_choppers': len(layout_grid()) * reps},
     }
 
 
@@ -2694,6 +2771,113 @@ def deterministic_round7(shard, rep, ctx, mon, DiskChopper, Chopper):
             fresh_interpreter_call(entry, case, ch, ctx, mon, Chopper, rng_d)
 
 
+# ------------------------------------------ round 8: tolerance band, slit layouts ---
+# Frequencies INSIDE the acceptance band ("to a relative tolerance of about 1e-8"): every integer ratio 1..8
+# and the sub-harmonics, both sides, both senses.  The tolerance may be read as relative to the ratio or as an
+# absolute distance of the ratio (of its reciprocal for a sub-harmonic) from the integer: both are driven.
+BAND_RATIOS = ([('1/4', 'divisor', 4), ('1/3', 'divisor', 3), ('1/2', 'divisor', 2)]
+               + [(str(n), 'multiple', n) for n in range(1, 9)])
+BAND_OFFSETS = ([('relative', x) for x in (1e-12, 1e-11, 1e-10, 1e-9, 3e-9, 6e-9, 8e-9, 1e-8)]
+                + [('absolute', x) for x in (3e-9, 6e-9, 8e-9, 1e-8)])
+BAND_JUDGED = [f'{k}, {s} the integer by {d}' for k in ('multiple', 'divisor') for s in ('below', 'above')
+               for d in ('< 1e-10', '1e-10 .. 1e-9', '1e-9 .. 5e-9', '5e-9 .. 1e-8')]
+SLIT_LAYOUTS = ('0-d', 'length-1', 'length-n')
+LAYOUT_VIAS = ('ctor', 'replace', 'nexus_begin_end', 'subclass_override')
+
+
+def band_grid():
+    return [(r, sign, side, off) for r in BAND_RATIOS for sign in (-1, 1) for side in (-1, 1)
+            for off in BAND_OFFSETS]
+
+
+def layout_grid():
+    return [(lay, via, sign, rc) for lay in SLIT_LAYOUTS for via in LAYOUT_VIAS for sign in (-1, 1)
+            for rc in RATIO_CLASSES]
+
+
+def band_ratio(kind, n, side, off):
+    how, x = off
+    if how == 'relative':
+        base = float(n) if kind == 'multiple' else 1.0 / n
+        return base * (1.0 + side * x)
+    return n + side * x if kind == 'multiple' else 1.0 / (n + side * x)
+
+
+def deterministic_round8(shard, rep, ctx, mon, DiskChopper, Chopper):
+    n_sh, me = int(shard.get('n_shards', N_SHARDS)), int(shard['index'])
+    rng_d = np.random.Generator(np.random.PCG64([shard['seed'], shard['index'], 10, 5, rep]))
+
+    def built(case):
+        try:
+            return build(case, DiskChopper)
+        except Exception:  # noqa: BLE001  (judged by the monitors through PY_UNWIND)
+            return None
+
+    # -- frequencies inside the acceptance band, on both sides of every integer ratio and sub-harmonic
+    for j, ((label, kind, n), sign, side, off) in enumerate(band_grid()):
+        if (j + rep) % n_sh != me:
+            continue
+        case = gen_dim_case(rng_d, 'slit', 1 + (j + rep) % 4, sign, 'one', j + rep)
+        fp_hz = (14.0, 10.0, 50.0, 100 / 6)[(j // 3 + rep) % 4]
+        fp_unit, f_unit = F_UNITS[(j // 5) % 3], F_UNITS[(j // 5 + (j // 2) % 2 * (1 + j % 2)) % 3]
+        ratio = band_ratio(kind, n, side, off)
+        case.update(fp=(float(fp_hz / F_UNIT_HZ[fp_unit]), fp_unit),
+                    f=(float(sign * ratio * fp_hz / F_UNIT_HZ[f_unit]), f_unit), ratio=label,
+                    band='tolerance', via='ctor', form='keyword', offset=[off[0], side * off[1]])
+        descr = case_descr(case)
+        mon.new_case({'generated': descr, 'class': 'band'})
+        before = ctx.n_violations
+        ch = built(case)
+        side_s = 'below' if side < 0 else 'above'
+        sig = ('tolerance band', label, sign, side_s, off[0], off[1])
+        ctx.case(('build', *sig))
+        ctx.count('tolerance_band_choppers')
+        ctx.hit(f'tolerance band: ratio {label}')
+        ctx.hit(f'tolerance band: {side_s} by {off[0]} {off[1]:g}')
+        ctx.hit('tolerance band: ' + ('clockwise' if sign < 0 else 'anticlockwise'))
+        if ch is None:
+            ctx.count('tolerance_band:not constructed')
+            continue
+        fp = sc.scalar(case['fp'][0], unit=case['fp'][1])
+        for name in ('time_offset_open', 'time_offset_close', 'open_duration'):
+            try:
+                getattr(ch, name)(pulse_frequency=fp)
+            except Exception:  # noqa: BLE001  (judged by the monitor; acceptance inside the band is not decided)
+                ctx.count(f'tolerance_band:{name} refused')
+            ctx.case((name, *sig))
+        check_state(mon, ctx, ch, 'the computational calls')
+        if ctx.n_violations > before:
+            ctx.sample(descr)
+    # -- every layout DiskChopper accepts for the slit fields, through every entry point
+    for j, (lay, via, sign, rc) in enumerate(layout_grid()):
+        if (j + rep) % n_sh != me:
+            continue
+        n = 1 if lay != 'length-n' else 2 + (j + rep) % 5
+        case = gen_dim_case(rng_d, ('slit', 'edge', 'x')[(j // 4) % 3], n, sign, rc, j + rep)
+        case.update(via=via, layout=lay)
+        descr = case_descr(case)
+        mon.new_case({'generated': descr, 'class': 'layout'})
+        before = ctx.n_violations
+        ch = built(case)
+        sig = ('slit layout', lay, via, sign, rc)
+        ctx.case(('build', *sig))
+        ctx.count('slit_layout_choppers')
+        ctx.hit(f'slit fields {lay}')
+        ctx.hit(f'slit fields {lay} via {via}')
+        if ch is None:
+            ctx.count('slit_layout:not constructed')
+        else:
+            try:
+                ok_layout = slit_layout(ch) == lay and slit_layout(Frozen(ch)) == lay
+            except Exception:  # noqa: BLE001
+                ok_layout = False
+            if not ok_layout:
+                ctx.count('slit_layout:chopper carries another layout')
+            drive(case, ch, ctx, Chopper, sig, (1, 2, 3, 4), mon=mon)
+        if ctx.n_violations > before:
+            ctx.sample(descr)
+
+
 def run(shard, ctx):
     from scippneutron.chopper import DiskChopper
     from scippneutron.chopper import disk_chopper as dcm
@@ -2780,6 +2964,7 @@ def run(shard, ctx):
                 ctx.count(f'threshold_set_built:{cls}')
             deterministic_round6(shard, rep, ctx, mon, DiskChopper, Chopper)
             deterministic_round7(shard, rep, ctx, mon, DiskChopper, Chopper)
+            deterministic_round8(shard, rep, ctx, mon, DiskChopper, Chopper)
         # -- random part
         rng_f = np.random.Generator(np.random.PCG64([shard['seed'], shard['index'], 10, 2]))
         for i in range(shard['choppers']):
